@@ -81,6 +81,7 @@ type WorkerSpec struct {
 	TimeoutMS  int      `json:"timeout_ms"`
 	SMTLog     string   `json:"smt_log"`
 	Hang       bool     `json:"hang_is_violation"`
+	Stream     bool     `json:"stream"` // further jobs follow on stdin, one JSON value each, until EOF
 }
 
 var pkgClause = regexp.MustCompile(`(?m)^package\s+(\w+)`)
@@ -168,7 +169,8 @@ func emit(kind string, v any) {
 
 func workerMain() {
 	var spec WorkerSpec
-	if err := json.NewDecoder(bufio.NewReader(os.Stdin)).Decode(&spec); err != nil {
+	dec := json.NewDecoder(bufio.NewReader(os.Stdin))
+	if err := dec.Decode(&spec); err != nil {
 		emit("FATAL", err.Error())
 		os.Exit(2)
 	}
@@ -199,7 +201,23 @@ func workerMain() {
 		s.Log = f
 	}
 	m := interp.NewMachine(pkg)
-	for _, j := range spec.Jobs {
+	next := func() (Job, bool) {
+		if len(spec.Jobs) > 0 {
+			j := spec.Jobs[0]
+			spec.Jobs = spec.Jobs[1:]
+			return j, true
+		}
+		var j Job
+		if spec.Stream && dec.Decode(&j) == nil {
+			return j, true
+		}
+		return j, false
+	}
+	for {
+		j, ok := next()
+		if !ok {
+			break
+		}
 		known := map[string]bool{}
 		for _, k := range j.Known {
 			known[k] = true
